@@ -413,4 +413,16 @@ BestCost(T, best) ==
   IN IF Len(T) = 1 THEN b ELSE BestCost(MergeTables(T), b)
 
 RiceOptimum(res, n, ord, maxp) == BestCost(FinestTables(res, n, ord, maxp), Sat)
+
+\* The choice the search of src/rice.rs makes among equal costs (RiceSearch.tla, invariant TieRule, model-checked
+\* against the code as written): the FINEST order among the cheapest, in every partition the SMALLEST parameter.
+\* [cost, order, params]; cost = RiceOptimum.
+ArgMinRow(row) == LET m == MinOf(row) IN CHOOSE kk \in 1..Len(row) : row[kk] = m /\ \A q \in 1..(kk - 1) : row[q] # m
+RECURSIVE BestChoice(_, _, _)
+BestChoice(T, order, best) ==
+  LET c == CostOf(T)
+      b == IF c < best.cost THEN [cost |-> c, order |-> order, params |-> [j \in 1..Len(T) |-> ArgMinRow(T[j]) - 1]] ELSE best
+  IN IF Len(T) = 1 THEN b ELSE BestChoice(MergeTables(T), order - 1, b)
+RiceChoice(res, n, ord, maxp) ==
+  BestChoice(FinestTables(res, n, ord, maxp), Finest(n, ord), [cost |-> Sat + 1, order |-> -1, params |-> <<>>])
 =============================================================================
